@@ -11,6 +11,7 @@ use crate::tables::types::*;
 pub fn oracle(p: &Program) -> Vec<Violation> {
     let flat = flatten(p);
     let mask = refusal_mask(p, &flat);
+    let open = open_mask(p, &flat);
     let mut out: Vec<Violation> = Vec::new();
     let mut prev: Option<Vec<u8>> = None;
     let name = p.kind.name();
@@ -55,7 +56,7 @@ pub fn oracle(p: &Program) -> Vec<Violation> {
                 }
             }
         }
-        if o.refused && o.step > 0 && mask[o.step - 1] {
+        if o.refused && o.step > 0 && (mask[o.step - 1] || open[o.step - 1]) {
             if let Some(pv) = &prev {
                 if pv.as_slice() != o.image && out.len() < 8 {
                     out.push(Violation::new("C01", name, "changed-after-refusal", format!("after:{}", after), format!("step={}", o.step)));
